@@ -1349,4 +1349,43 @@ impl SwarmDriver {
     pub fn verif_try_recv_local_cmd(&mut self) -> Option<LocalSwarmCmd> {
         self.local_cmd_receiver.try_recv().ok()
     }
+
+    /// Let the replication timers elapse: forget when interval replication last ran and to whom.
+    pub fn verif_reset_replication_timers(&mut self) {
+        self.last_replication = None;
+        self.replication_targets.clear();
+    }
+
+    /// Pass-through to `get_closest_k_value_local_peers`.
+    pub fn verif_closest_k_value_local_peers(&mut self) -> Vec<PeerId> {
+        self.get_closest_k_value_local_peers()
+    }
+
+    /// The record store's index: every held address with its record type.
+    pub fn verif_record_addresses(
+        &mut self,
+    ) -> Vec<(
+        ant_protocol::NetworkAddress,
+        ant_protocol::storage::RecordType,
+    )> {
+        self.swarm
+            .behaviour_mut()
+            .kademlia
+            .store_mut()
+            .record_addresses_ref()
+            .values()
+            .cloned()
+            .collect()
+    }
+
+    /// What the record store returns for `key` (`RecordStore::get`).
+    pub fn verif_get_local_record(&mut self, key: &libp2p::kad::RecordKey) -> Option<Record> {
+        use libp2p::kad::store::RecordStore;
+        self.swarm
+            .behaviour_mut()
+            .kademlia
+            .store_mut()
+            .get(key)
+            .map(|r| r.into_owned())
+    }
 }
